@@ -339,7 +339,7 @@ def oracle_stage(res, d, hbin, tier):
                     if l.strip() and not l.startswith("#"):
                         g.write(l if l.endswith("\n") else l + "\n")
                         nin += 1
-    ngen, ntrans = (3000, 14) if tier == "thorough" else (120, 7)
+    ngen, ntrans = (3000, 14) if tier == "thorough" else (100, 7)
     out = os.path.join(d, "oracle.jsonl")
     if os.path.exists(out):
         os.remove(out)
@@ -482,7 +482,7 @@ def main(tier, replay=None):
         "it is and after k%7 = 0 re-spacing of every gap (blanks, tabs, LF, CRLF, empty where two tokens may touch), "
         "1 insertion/deletion of line and block comments (every star/slash pattern, quotes, Latin-1, CR/CRLF, directly after a "
         "token, at end of file), 2 case permutation of keywords and basic identifiers (extended identifiers, literals, "
-        "strings untouched), 3 all of them, 4 every file joined onto ONE line (comments dropped), 5 ONE TOKEN PER LINE, 6 ONE FILE ONLY (3..48 header lines prepended / joined / split / re-spaced, the other files untouched, so that positions change relative to other files; hand-made corpus projects get every (file, operation) pair); the transformed text must give the same "
+        "strings untouched), 3 all of them, 4 every file joined onto ONE line (comments dropped), 5 ONE TOKEN PER LINE, 6 ONE FILE ONLY (3..48 header lines prepended / joined / split / re-spaced, the other files untouched, so that positions change relative to other files; hand-made corpus projects get every (file, operation) pair; for these one-file transformations the same edit is also applied IN PLACE to a live project with linters on (Source::change + update_source, re-analyse) and must leave every diagnostic on its token — skipped when a design-unit name is defined in two files); the transformed text must give the same "
         "token kinds/values/Symbol ids (lexer half) and the same multiset of (code, token index of range start and end, "
         "message lower-cased, multiset of related (token index, message)); syntax errors by code and number of tokens "
         "ending at or before the anchor.  Both versions use the same file paths.  SYMBOL TABLE: the 256 bytes, every "
@@ -534,7 +534,10 @@ def main(tier, replay=None):
         "diagnostics and related information as multisets (hash-map iteration order)",
         "original and transformed project are analysed under identical file paths (the order of duplicate primary units "
         "follows a hash map keyed by path, which is outside the claim as in C01/C04)",
-        "files with lexical errors, tool directives (grave accent) or `vhdl_ls off/on` comments are left untransformed; "
+        "files with lexical errors or tool directives (grave accent) are left untransformed; files with `vhdl_ls off/on` "
+        "directives ARE transformed (also inside the fenced region and between a directive and the next token): only the "
+        "directive comments themselves are never inserted, deleted or altered, and a directive keeps its attachment "
+        "(trailing comment of a token vs. leading comment of the next, which the tokenizer distinguishes); "
         "gaps next to a tick token are kept verbatim (tick/character-literal disambiguation depends on the next 2 chars)",
     ]
     return res.finish()
